@@ -127,3 +127,60 @@ def alpha_rename(source):
     tree = _Renamer().visit(tree)
     ast.fix_missing_locations(tree)
     return ast.unparse(tree)
+
+
+class _Tracer(ast.NodeTransformer):
+    """insert a harmless logging call at the top of every function body and after every
+    simple statement of function bodies (not after return/raise/break/continue)"""
+
+    def _trace(self):
+        return ast.Expr(value=ast.Call(func=ast.Attribute(value=ast.Name(id='log', ctx=ast.Load()), attr='msg', ctx=ast.Load()),
+                                       args=[ast.Constant(value='trace')], keywords=[]))
+
+    def _body(self, body, top=False):
+        out = []
+        start = 0
+        if top and body and isinstance(body[0], ast.Expr) and isinstance(body[0].value, ast.Constant) and isinstance(body[0].value.value, str):
+            out.append(body[0])
+            start = 1
+        if top:
+            out.append(self._trace())
+        for st in body[start:]:
+            st = self.visit(st)
+            out.append(st)
+            if isinstance(st, (ast.Assign, ast.AugAssign, ast.Expr)) and not (isinstance(st, ast.Expr) and isinstance(st.value, (ast.Yield, ast.YieldFrom))):
+                out.append(self._trace())
+        return out
+
+    def visit_FunctionDef(self, node):
+        self.depth = getattr(self, 'depth', 0) + 1
+        node.body = self._body(node.body, top=True)
+        self.depth -= 1
+        return node
+
+    visit_AsyncFunctionDef = visit_FunctionDef
+
+    def generic_visit(self, node):
+        if getattr(self, 'depth', 0) > 0:
+            for field in ('body', 'orelse', 'finalbody'):
+                b = getattr(node, field, None)
+                if isinstance(b, list) and b and isinstance(b[0], ast.stmt):
+                    setattr(node, field, self._body(b))
+            if isinstance(node, ast.Try):
+                for h in node.handlers:
+                    h.body = self._body(h.body)
+                return node
+            if isinstance(node, (ast.If, ast.For, ast.While, ast.With, ast.AsyncFor, ast.AsyncWith)):
+                return node
+        return super(_Tracer, self).generic_visit(node)
+
+    def visit_ClassDef(self, node):
+        node.body = [self.visit(st) for st in node.body]
+        return node
+
+
+def add_tracing(source):
+    tree = ast.parse(source)
+    tree = _Tracer().visit(tree)
+    ast.fix_missing_locations(tree)
+    return ast.unparse(tree)
